@@ -38,14 +38,14 @@ const (
 )
 
 type hsParty struct {
-	Cfg    *security.SecurityConfig
-	Auth   *security.Authenticator
-	Neg    *security.SecurityNegotiation
-	Err    error
-	Stream *stream.Stream
-	End    *netsim.End
-	AppGot []byte
-	AppErr error
+	Cfg     *security.SecurityConfig
+	Auth    *security.Authenticator
+	Neg     *security.SecurityNegotiation
+	Err     error
+	Stream  *stream.Stream
+	End     *netsim.End
+	AppGot  []byte
+	AppErr  error
 	Resumed bool
 	Panic   string
 	// ClosedByEndpoint: the conn was already closed when the endpoint's call
